@@ -95,7 +95,9 @@ Rest == UNCHANGED <<sid, def, types>>
 
 TraceBegin ==
   /\ ~dead /\ e.ev = "begin" /\ Rest
-  /\ op' = e /\ made' = <<>> /\ outv' = <<>> /\ failed' = FALSE /\ tmp' = {}
+  \* the operation in progress remembers how many zero-size owned values were alive when it began
+  /\ op' = [x \in (DOMAIN e) \cup {"zl"} |-> IF x = "zl" THEN zlive ELSE e[x]]
+  /\ made' = <<>> /\ outv' = <<>> /\ failed' = FALSE /\ tmp' = {}
   /\ dead' = (op # <<>>)
   /\ UNCHANGED <<slots, st, pay, zlive, ext, lastmut, enc, cap>>
   /\ Consume(If(op # <<>>, "H:begin-inside-an-operation"))
@@ -376,10 +378,13 @@ EndClone ==
   ELSE IF ~CloneMatches(rec)
   THEN /\ UNCHANGED <<slots, st, ext, lastmut>> /\ dead' = TRUE
        /\ Consume({"C16:clone-did-not-clone-each-field-of-the-source-exactly-once"})
-  ELSE LET rec2 == [v |-> rec.v, vals |-> CloneVals(rec)] IN
+  ELSE LET rec2 == [v |-> rec.v, vals |-> CloneVals(rec)]
+           \* zero-size owned fields have no identity: their clones are counted
+           nz == Cardinality({f \in DOMAIN rec.vals : Field(def, rec.v, f).size = 0 /\ Field(def, rec.v, f).droppable}) IN
        /\ SetSlot(t, rec2) /\ st' = Own(st, rec2) /\ ext' = [ext EXCEPT ![t] = tmp]
        /\ lastmut' = "C16" /\ dead' = FALSE
-       /\ Consume(If(cap # 0 /\ ~Agrees(def, rec.v, rec2.vals, tmp), "C07:clone-did-not-store-exactly-the-cloned-fields"))
+       /\ Consume(If(cap # 0 /\ ~Agrees(def, rec.v, rec2.vals, tmp), "C07:clone-did-not-store-exactly-the-cloned-fields")
+             \cup If(zlive # op.zl + nz, "C16:zero-size-owned-field-not-cloned-through-its-Clone-exactly-once"))
 
 EndCloneFrom ==
   LET src == CurSlot  t == 3 - op.slot  dst == slots[t] IN
